@@ -19,8 +19,61 @@ import (
 	"sync"
 
 	"github.com/go-swagger/go-swagger/cmd/swagger/commands"
+	"github.com/go-swagger/go-swagger/cmd/swagger/commands/generate"
+	"github.com/go-swagger/go-swagger/generator"
 	flags "github.com/jessevdk/go-flags"
 )
+
+// runLibrary calls the generator LIBRARY API (what C07 quantifies concurrency over) with the option
+// values the CLI uses by default; the CLI's own option layer (go-flags, swag.AddInitialisms) is not
+// involved.
+func runLibrary(cmd, spec, target string) (err error) {
+	defer func() {
+		if r := recover(); r != nil {
+			err = fmt.Errorf("panic: %v", r)
+		}
+	}()
+	fl := &generate.FlattenCmdOptions{WithFlatten: []string{"minimal"}}
+	opts := new(generator.GenOpts)
+	opts.Spec, opts.Target = spec, target
+	opts.APIPackage, opts.ModelPackage, opts.ServerPackage, opts.ClientPackage = "operations", "models", "restapi", "client"
+	opts.ValidateSpec = true
+	opts.FlattenOpts = fl.SetFlattenOptions(nil)
+	opts.DefaultScheme, opts.DefaultProduces, opts.DefaultConsumes = "http", "application/json", "application/json"
+	opts.IncludeModel, opts.IncludeValidator, opts.IncludeHandler, opts.IncludeParameters = true, true, true, true
+	opts.IncludeResponses, opts.IncludeURLBuilder, opts.IncludeSupport, opts.IncludeMain = true, true, true, true
+	opts.Name = "verif"
+	opts.FlagStrategy, opts.CompatibilityMode = "go-flags", "modern"
+	switch cmd {
+	case "server":
+	case "client":
+		opts.IsClient = true
+	case "cli":
+		opts.IsClient = true
+		opts.IncludeCLi = true
+		opts.CliPackage = "cli"
+		opts.CliAppName = "cli"
+	case "model":
+	case "markdown":
+	}
+	if cmd == "markdown" {
+		generator.MarkdownSectionOpts(opts, filepath.Join(target, "doc.md"))
+	}
+	if err = opts.EnsureDefaults(); err != nil {
+		return err
+	}
+	switch cmd {
+	case "server":
+		return generator.GenerateServer("verif", nil, nil, opts)
+	case "client", "cli":
+		return generator.GenerateClient("verif", nil, nil, opts)
+	case "model":
+		return generator.GenerateModels(nil, opts)
+	case "markdown":
+		return generator.GenerateMarkdown(filepath.Join(target, "doc.md"), nil, nil, opts)
+	}
+	return fmt.Errorf("unknown library command %s", cmd)
+}
 
 func init() { cmds["det-run"] = cmdDetRun }
 
@@ -111,6 +164,7 @@ func cmdDetRun(args []string) error {
 	outPath := fs.String("out", "trace.ndjson", "")
 	n := fs.Int("n", 8, "sequential repetitions per job")
 	conc := fs.Int("conc", 0, "concurrent instances per job (0 = none)")
+	useLib := fs.Bool("lib", false, "call the generator library API instead of the CLI command objects")
 	_ = fs.Parse(args)
 	log.SetOutput(io.Discard)
 	jobs, err := readNDJSON(*jobsPath)
@@ -139,7 +193,12 @@ func cmdDetRun(args []string) error {
 		run := func(target, mode string, rep int) {
 			_ = os.RemoveAll(target)
 			_ = os.MkdirAll(target, 0o755)
-			e := runSwagger(subst(jargs, target))
+			var e error
+			if lib, ok := j["lib"].(string); ok && *useLib {
+				e = runLibrary(lib, j["spec"].(string), target)
+			} else {
+				e = runSwagger(subst(jargs, target))
+			}
 			out := strings.ReplaceAll(output, "{T}", target)
 			ev := obj{"ev": "Run", "job": id, "mode": mode, "rep": rep, "target": filepath.Base(target), "exit": 0,
 				"digest": digestPath(out), "files": fileDigests(out)}
@@ -173,4 +232,13 @@ func cmdDetRun(args []string) error {
 		}
 	}
 	return nil
+}
+
+func init() {
+	cmds["digest"] = func(args []string) error {
+		for _, a := range args {
+			fmt.Println(string(mustJSON(obj{"path": a, "digest": digestPath(a), "files": fileDigests(a)})))
+		}
+		return nil
+	}
 }
